@@ -1026,7 +1026,7 @@ def apalache_xadd(ctx):
     done = 0
     for name, opts in steps:
         p = core.sh(["apalache-mc", "check", "--cinit=ConstInit", "--inv=IndInv", f"--out-dir={wd}/out"] + opts + [spec],
-                    cwd=wd, timeout=900, check=False)
+                    cwd=wd, timeout=900, check=False, env={"TMPDIR": wd, "JVM_ARGS": f"-Djava.io.tmpdir={wd}"})
         if "EXITCODE: OK" in p.stdout:
             done += 1
         elif "EXITCODE: ERROR (12)" in p.stdout:
